@@ -166,7 +166,10 @@ class World:
             worker = reg._worker  # noqa: SLF001
             if worker is None or worker.is_alive():
                 continue
-            worker._operations_queue.put('stop_sco')  # noqa: SLF001
+            q = worker._operations_queue  # noqa: SLF001
+            with q.mutex:  # the end marker goes in even when the (bounded) queue is full
+                q.queue.append('stop_sco')
+                q.not_empty.notify()
             worker.run()
             reg._worker = sco_mod._OperationsWorker(reg, reg._set_service, reg._mdib, reg._log_prefix)  # noqa: SLF001
 
